@@ -227,16 +227,41 @@ Qed.
 Lemma find_match_here : forall s c, match_here s = Some c -> find_match s = Some c.
 Proof. intros s c H. destruct s; cbn [find_match]; rewrite H; reflexivity. Qed.
 
+(* what the default node resolver makes of the text of a reference type: a String identifier in
+   namespace 0 that spells a standard name comes back as the numeric id (known class 2) *)
+Definition canon_ref (r : nodeid) : nodeid :=
+  match nid_id r with
+  | IStr (Some s) =>
+      if nid_ns r =? 0 then
+        match lookup_name s with Some k => mk_nid 0 (INum k) | None => r end
+      else r
+  | _ => r
+  end.
+Definition canon (e : elem) : elem := mk_el (canon_ref (el_ref e)) (el_inv e) (el_sub e) (el_tgt e).
+
+Definition printable (e : elem) : Prop := wf_elem e /\ unprintable e = false.
 Definition good (e : elem) : Prop := wf_elem e /\ unprintable e = false /\ aliasing e = false.
 
-Lemma good_name : forall e, good e ->
-  exists bn, browse_name_of (el_ref e) = Some bn /\ bn <> [] /\
-             node_resolver (nid_ns (el_ref e)) bn = Some (el_ref e).
+Lemma good_printable : forall e, good e -> printable e.
+Proof. intros e [H1 [H2 _]]. split; assumption. Qed.
+
+Lemma canon_good : forall e, good e -> canon e = e.
 Proof.
-  intros [[ns id] inv sub [tns tn]] [Hwf [Hu Ha]].
-  unfold wf_elem, unprintable, aliasing in *. cbn [el_ref el_tgt nid_ns nid_id qn_ns qn_name] in *.
+  intros [[ns id] inv sub tq] [_ [_ Ha]]. unfold canon, canon_ref, aliasing in *.
+  cbn [el_ref el_inv el_sub el_tgt nid_ns nid_id] in *.
+  destruct id as [k|[s|]|k]; try reflexivity.
+  destruct (ns =? 0) eqn:E; [|reflexivity]. cbn [andb] in Ha.
+  unfold lookup_name. rewrite (lookup_name_in_none _ _ Ha). reflexivity.
+Qed.
+
+Lemma good_name : forall e, printable e ->
+  exists bn, browse_name_of (el_ref e) = Some bn /\ bn <> [] /\
+             node_resolver (nid_ns (el_ref e)) bn = Some (canon_ref (el_ref e)).
+Proof.
+  intros [[ns id] inv sub [tns tn]] [Hwf Hu].
+  unfold wf_elem, unprintable in *. cbn [el_ref el_tgt nid_ns nid_id qn_ns qn_name] in *.
   destruct Hwf as [Hns [Htns [Htn Hid]]].
-  unfold browse_name_of, node_resolver. cbn [nid_ns nid_id].
+  unfold browse_name_of, node_resolver, canon_ref. cbn [nid_ns nid_id].
   destruct id as [k|[s|]|k].
   - apply orb_false_iff in Hu as [Hu1 Hu2]. apply negb_false_iff in Hu1, Hu2.
     rewrite Hu1. destruct (lookup_id k) as [nm|] eqn:Hl.
@@ -245,8 +270,7 @@ Proof.
     + apply lookup_id_in_none in Hl. unfold lookup_id in Hl. congruence.
   - exists s. split; [reflexivity|]. split; [exact Hid|].
     destruct (ns =? 0) eqn:E; [|reflexivity].
-    cbn [andb] in Ha. apply Z.eqb_eq in E. subst.
-    unfold lookup_name. rewrite (lookup_name_in_none _ _ Ha). reflexivity.
+    apply Z.eqb_eq in E. subst. destruct (lookup_name s); reflexivity.
   - contradiction.
   - discriminate.
 Qed.
@@ -318,16 +342,16 @@ Proof.
   destruct id; try discriminate. apply Z.eqb_eq in H1, H2. subst. reflexivity.
 Qed.
 
-Theorem parse_elem_print : forall e w, good e -> print_elem e = Ok w -> parse_elem w = Ok e.
+Theorem parse_elem_canon : forall e w, printable e -> print_elem e = Ok w -> parse_elem w = Ok (canon e).
 Proof.
   intros e w Hg Hp. destruct (good_name e Hg) as [bn [Hbn [Hne Hres]]].
   destruct Hg as [Hwf _]. destruct Hwf as [Hns [Htns [Htn _]]].
   pose proof (target_roundtrip (el_tgt e) Htns Htn) as Ht.
   unfold print_elem, print_reftype in Hp. rewrite Hbn in Hp.
-  destruct e as [ref inv sub tq]. cbn [el_ref el_inv el_sub el_tgt] in *.
+  destruct e as [ref inv sub tq]. unfold canon. cbn [el_ref el_inv el_sub el_tgt] in *.
   assert (Hbr : parse_elem (([60] ++ (if sub then [] else [35]) ++ (if inv then [33] else [])
                  ++ (if nid_ns ref =? 0 then escape bn else show_num (nid_ns ref) ++ [58] ++ escape bn)
-                 ++ [62]) ++ print_target tq) = Ok (mk_el ref inv sub tq)).
+                 ++ [62]) ++ print_target tq) = Ok (mk_el (canon_ref ref) inv sub tq)).
   { rewrite bracket_text. unfold parse_elem.
     erewrite find_match_here.
     2:{ cbn [match_here]. change (60 =? 47) with false. change (60 =? 46) with false.
@@ -346,6 +370,20 @@ Proof.
     unfold parse_elem. cbn [app find_match match_here]. change (46 =? 47) with false.
     change (46 =? 46) with true. cbv iota.
     unfold elem_of_caps. cbn [cp_target cp_kind]. rewrite Ht. reflexivity.
+Qed.
+
+Theorem parse_elem_print : forall e w, good e -> print_elem e = Ok w -> parse_elem w = Ok e.
+Proof.
+  intros e w Hg Hp. rewrite <- (canon_good e Hg).
+  apply parse_elem_canon; [apply good_printable; exact Hg | exact Hp].
+Qed.
+
+
+Lemma element_roundtrip : forall e w,
+  printable e -> print_elem e = Ok w -> parse_elem w = Ok (canon e) /\ (aliasing e = false -> canon e = e).
+Proof.
+  intros e w Hp Hw. split; [apply parse_elem_canon; assumption|].
+  intro Ha. apply canon_good. destruct Hp as [H1 H2]. split; [exact H1 | split; [exact H2 | exact Ha]].
 Qed.
 
 (* ---- the tokeniser ---------------------------------------------------------------------------- *)
@@ -433,29 +471,30 @@ Section Tok.
 
   (* a sequence of element texts, each of which [pe] parses to the element it came from *)
   Variable text : elem -> str.
+  Variable res : elem -> elem.       (* what [pe] makes of the text of an element *)
 
   Definition pend_tok (pend : option elem) : str := match pend with Some e => text e | None => [] end.
   Definition pend_el (pend : option elem) : list elem := match pend with Some e => [e] | None => [] end.
 
   Lemma tok_path : forall p els pend,
-    Forall (fun e => elem_text (text e) /\ pe (text e) = Ok e) p ->
-    match pend with Some e => elem_text (text e) /\ pe (text e) = Ok e | None => True end ->
+    Forall (fun e => elem_text (text e) /\ pe (text e) = Ok (res e)) p ->
+    match pend with Some e => elem_text (text e) /\ pe (text e) = Ok (res e) | None => True end ->
     (length els + length (pend_el pend) + length p <= 32)%nat ->
-    tok_loop pe (flat_map text p) els (pend_tok pend) false = Ok (els ++ pend_el pend ++ p).
+    tok_loop pe (flat_map text p) els (pend_tok pend) false = Ok (els ++ map res (pend_el pend ++ p)).
   Proof.
     induction p as [|e p IH]; intros els pend Hp Hpend Hlen.
     - cbn [flat_map tok_loop]. unfold finish. destruct pend as [e0|]; cbn [pend_tok pend_el] in *.
       + destruct Hpend as [[c [body [Hw _]]] He]. rewrite Hw. cbn [is_nil]. rewrite <- Hw.
         cbn [length] in Hlen.
         destruct (Z.of_nat (length els) =? MAX_ELEMENTS) eqn:E; [unfold MAX_ELEMENTS in E; lia|].
-        rewrite He. rewrite app_nil_r. reflexivity.
-      + cbn [is_nil app]. rewrite app_nil_r. reflexivity.
+        rewrite He. reflexivity.
+      + cbn [is_nil app map]. rewrite app_nil_r. reflexivity.
     - cbn [flat_map]. inversion Hp as [|? ? [Htxt He] Hp']; subst.
       destruct pend as [e0|]; cbn [pend_tok pend_el] in *.
       + destruct Hpend as [Htxt0 He0].
-        rewrite (tok_next (text e) (flat_map text p) els (text e0) e0 Htxt).
-        * assert (H : tok_loop pe (flat_map text p) (els ++ [e0]) (pend_tok (Some e)) false
-                      = Ok ((els ++ [e0]) ++ pend_el (Some e) ++ p)).
+        rewrite (tok_next (text e) (flat_map text p) els (text e0) (res e0) Htxt).
+        * assert (H : tok_loop pe (flat_map text p) (els ++ [res e0]) (pend_tok (Some e)) false
+                      = Ok ((els ++ [res e0]) ++ map res (pend_el (Some e) ++ p))).
           { apply IH; [exact Hp' | split; assumption |].
             rewrite app_length. cbn [length pend_el] in *. lia. }
           cbn [pend_tok pend_el] in H. rewrite H, <- app_assoc. reflexivity.
@@ -464,7 +503,7 @@ Section Tok.
         * exact He0.
       + rewrite (tok_first (text e) (flat_map text p) els Htxt).
         assert (H : tok_loop pe (flat_map text p) els (pend_tok (Some e)) false
-                    = Ok (els ++ pend_el (Some e) ++ p)).
+                    = Ok (els ++ map res (pend_el (Some e) ++ p))).
         { apply IH; [exact Hp' | split; assumption |]. cbn [length pend_el] in *. lia. }
         cbn [pend_tok pend_el] in H. rewrite H. reflexivity.
   Qed.
@@ -493,7 +532,7 @@ Proof.
   rewrite ulen_app. cbn [app]. rewrite ulen_cons, ulen_show_num, ulen_escape. change (utf8_len 58) with 1. lia.
 Qed.
 
-Lemma print_elem_shape : forall e, good e ->
+Lemma print_elem_shape : forall e, printable e ->
   exists c body, print_elem e = Ok (c :: body) /\ is_sep c = true /\ inert body /\
                  ulen (c :: body) = elem_size e.
 Proof.
@@ -541,13 +580,27 @@ Proof.
   constructor; [exact H1 | apply IH; exact H2].
 Qed.
 
-Lemma valid_good : forall p, valid (CPath p) -> known (CPath p) = 0 -> Forall good p.
+Lemma valid_printable : forall p, valid (CPath p) -> existsb unprintable p = false -> Forall printable p.
 Proof.
-  intros p Hwf Hk. cbn [known valid] in *.
-  destruct (existsb unprintable p) eqn:Hu; [discriminate|].
-  destruct (existsb aliasing p) eqn:Ha; [discriminate|].
-  apply existsb_false_Forall in Hu, Ha.
-  rewrite Forall_forall in *. intros e He. split; [|split]; auto.
+  intros p Hwf Hu. cbn [valid] in Hwf. apply existsb_false_Forall in Hu.
+  rewrite Forall_forall in *. intros e He. split; auto.
+Qed.
+
+Lemma known_0 : forall p, known (CPath p) = 0 ->
+  existsb unprintable p = false /\ existsb aliasing p = false.
+Proof.
+  intros p Hk. cbn [known] in Hk.
+  destruct (existsb unprintable p); [discriminate|]. destruct (existsb aliasing p); [discriminate|].
+  split; reflexivity.
+Qed.
+
+Lemma map_canon_id : forall p, Forall wf_elem p -> existsb unprintable p = false ->
+  existsb aliasing p = false -> map canon p = p.
+Proof.
+  intros p Hwf Hu Ha. apply existsb_false_Forall in Hu, Ha.
+  induction p as [|e p IH]; [reflexivity|].
+  inversion Hwf; inversion Hu; inversion Ha; subst. cbn [map].
+  rewrite canon_good by (split; [|split]; assumption). rewrite IH by assumption. reflexivity.
 Qed.
 
 Lemma within_limit : forall p, over_limit p = false ->
@@ -559,27 +612,61 @@ Proof.
   - rewrite Forall_forall in *. intros e He. specialize (Hl2 e He). cbv beta in Hl2. lia.
 Qed.
 
-Lemma print_path_text : forall p, Forall good p -> print_path p = Ok (flat_map text p).
+Lemma print_path_text : forall p, Forall printable p -> print_path p = Ok (flat_map text p).
 Proof.
   induction p as [|e p IH]; intro H; [reflexivity|]. inversion H as [|? ? He Hp]; subst.
   cbn [print_path flat_map]. unfold text at 1.
   destruct (print_elem_shape e He) as [c [body [Hpr _]]]. rewrite Hpr, (IH Hp). reflexivity.
 Qed.
 
-Theorem roundtrip : forall p, valid (CPath p) -> known (CPath p) = 0 -> over_limit p = false ->
-  exists s, print_path p = Ok s /\ parse s = Ok p.
+(* every well-formed printable path within the limits parses back to its canonical form: the path
+   itself, except that String ids spelling a standard name have become numeric ids *)
+Theorem canonical_roundtrip : forall p,
+  valid (CPath p) -> existsb unprintable p = false -> over_limit p = false ->
+  exists s, print_path p = Ok s /\ parse s = Ok (map canon p).
 Proof.
-  intros p Hv Hk Hlim. pose proof (valid_good p Hv Hk) as Hg.
+  intros p Hv Hu Hlim. pose proof (valid_printable p Hv Hu) as Hg.
   destruct (within_limit p Hlim) as [Hlen Hsz].
   exists (flat_map text p). split; [apply print_path_text; exact Hg|].
   unfold parse.
-  assert (H := tok_path parse_elem text p [] None).
+  assert (H := tok_path parse_elem text canon p [] None).
   cbn [pend_tok pend_el app length] in H. apply H; [|exact I|lia].
   rewrite Forall_forall in *. intros e He.
   destruct (print_elem_shape e (Hg e He)) as [c [body [Hpr [Hs [Hi Hl]]]]].
   unfold text. rewrite Hpr. split.
   - exists c, body. repeat split; try assumption. rewrite Hl. apply Hsz. exact He.
-  - apply parse_elem_print; [apply Hg; exact He | exact Hpr].
+  - apply parse_elem_canon; [apply Hg; exact He | exact Hpr].
+Qed.
+
+Theorem roundtrip : forall p, valid (CPath p) -> known (CPath p) = 0 -> over_limit p = false ->
+  exists s, print_path p = Ok s /\ parse s = Ok p.
+Proof.
+  intros p Hv Hk Hlim. destruct (known_0 p Hk) as [Hu Ha].
+  destruct (canonical_roundtrip p Hv Hu Hlim) as [s [H1 H2]].
+  exists s. split; [exact H1|]. rewrite H2, (map_canon_id p Hv Hu Ha). reflexivity.
+Qed.
+
+(* known class 2 is exactly the set of printable paths that come back different *)
+Lemma canon_aliasing : forall e, aliasing e = true -> canon e <> e.
+Proof.
+  intros [[ns id] inv sub tq] Ha. unfold aliasing, canon, canon_ref in *.
+  cbn [el_ref el_inv el_sub el_tgt nid_ns nid_id] in *.
+  apply andb_true_iff in Ha as [Hns Ha]. destruct id as [k|[s|]|k]; try discriminate.
+  rewrite Hns. unfold lookup_name.
+  destruct (lookup_name_in name_table s) as [k|] eqn:Hl.
+  - intro H. inversion H.
+  - exfalso. clear Hns. revert Ha Hl. generalize name_table. induction l as [|[n k] l IH]; cbn; [discriminate|].
+    destruct (str_eqb n s); [discriminate|]. cbn. exact IH.
+Qed.
+
+Theorem known_2_changes : forall p, known (CPath p) = 2 -> map canon p <> p.
+Proof.
+  intros p Hk. cbn [known] in Hk. destruct (existsb unprintable p); [discriminate|].
+  destruct (existsb aliasing p) eqn:Ha; [|discriminate]. clear Hk.
+  induction p as [|e p IH]; [discriminate|]. cbn [existsb] in Ha. cbn [map]. intro H. inversion H as [[H1 H2]].
+  destruct (aliasing e) eqn:He.
+  - exact (canon_aliasing e He H1).
+  - cbn [orb] in Ha. exact (IH Ha H2).
 Qed.
 
 (* ---- the parser never panics -------------------------------------------------------------------- *)
@@ -696,6 +783,33 @@ Qed.
 Theorem parse_total : forall s, parse s <> Panic.
 Proof. intro s. unfold parse. apply tok_loop_total. exact parse_elem_total. Qed.
 
+(* a successful parse never returns more than 32 elements *)
+Lemma tok_loop_bounded : forall pe cs els t esc p,
+  (length els <= 32)%nat -> tok_loop pe cs els t esc = Ok p -> (length p <= 32)%nat.
+Proof.
+  intros pe. assert (Hfin : forall els t p, (length els <= 32)%nat -> finish pe els t = Ok p -> (length p <= 32)%nat).
+  { intros els t p Hle H. unfold finish in H. destruct (is_nil t); [inversion H; subst; exact Hle|].
+    destruct (Z.of_nat (length els) =? MAX_ELEMENTS) eqn:E; [discriminate|].
+    destruct (pe t); inversion H; subst. rewrite app_length. cbn [length]. unfold MAX_ELEMENTS in E. lia. }
+  induction cs as [|c cs IH]; intros els t esc p Hle H; cbn [tok_loop] in H; [eapply Hfin; eassumption|].
+  destruct esc.
+  - destruct (MAX_TOKEN_LEN <? ulen (t ++ [c])); [discriminate | eapply IH; eassumption].
+  - destruct (c =? 38).
+    + destruct (MAX_TOKEN_LEN <? ulen (t ++ [c])); [discriminate | eapply IH; eassumption].
+    + destruct (is_sep c).
+      * destruct (is_nil t).
+        -- destruct (MAX_TOKEN_LEN <? ulen [c]); [discriminate | eapply IH; eassumption].
+        -- destruct (Z.of_nat (length els) =? MAX_ELEMENTS) eqn:E; [eapply Hfin; eassumption|].
+           destruct (pe t); try discriminate.
+           destruct (MAX_TOKEN_LEN <? ulen [c]); [discriminate|].
+           eapply IH; [|eassumption]. rewrite app_length. cbn [length]. unfold MAX_ELEMENTS in E. lia.
+      * destruct (MAX_TOKEN_LEN <? ulen (t ++ [c])); [discriminate | eapply IH; eassumption].
+Qed.
+
+Theorem parse_bounded : forall s p, parse s = Ok p -> (length p <= 32)%nat.
+Proof. intros s p H. unfold parse in H. eapply tok_loop_bounded; [|exact H]. cbn. lia. Qed.
+
+
 (* ---- beyond the limits the parser rejects --------------------------------------------------------- *)
 Section Over.
   Variable pe : str -> outcome elem.
@@ -730,12 +844,13 @@ Section Over.
   Qed.
 
   Variable text : elem -> str.
+  Variable res : elem -> elem.
   Variable size : elem -> Z.
   (* every element text starts with a separator followed by inert text, and has the stated size;
      those within the limit are parsed back by [pe] *)
   Definition shaped (e : elem) : Prop :=
     (exists c body, text e = c :: body /\ is_sep c = true /\ inert body /\ ulen (c :: body) = size e) /\
-    (size e <= MAX_TOKEN_LEN -> pe (text e) = Ok e).
+    (size e <= MAX_TOKEN_LEN -> pe (text e) = Ok (res e)).
 
   Lemma flat_map_text_head : forall p, Forall shaped p ->
     match flat_map text p with [] => True | c :: _ => is_sep c = true end.
@@ -766,7 +881,7 @@ Section Over.
         destruct He as [[c [body [Hw [Hs [Hi Hl]]]]] Hpe].
         (* the state after the separator of e *)
         assert (Hstep : tok_loop pe ((c :: body) ++ flat_map text p) els (pend_tok text pend) false
-                        = tok_loop pe (body ++ flat_map text p) (els ++ pend_el pend) [c] false).
+                        = tok_loop pe (body ++ flat_map text p) (els ++ map res (pend_el pend)) [c] false).
         { cbn [app tok_loop]. rewrite (sep_not_amp c Hs), Hs.
           assert (H1 : (MAX_TOKEN_LEN <? ulen [c]) = false).
           { cbn [ulen fold_right]. pose proof (utf8_len_pos c). unfold MAX_TOKEN_LEN. lia. }
@@ -776,17 +891,17 @@ Section Over.
             rewrite (Hpe0 Hsz0), H1. reflexivity.
           - cbn [is_nil]. rewrite H1, app_nil_r. reflexivity. }
         rewrite Hw, Hstep.
-        assert (Hlen' : (length (els ++ pend_el pend) <= 32)%nat).
-        { rewrite app_length. destruct pend; cbn [pend_el length]; lia. }
+        assert (Hlen' : (length (els ++ map res (pend_el pend)) <= 32)%nat).
+        { rewrite app_length, map_length. destruct pend; cbn [pend_el length]; lia. }
         destruct (Z_le_gt_dec (size e) MAX_TOKEN_LEN) as [Hfit|Hbig].
         * (* e fits: go on with e pending *)
-          rewrite (tok_inert pe body Hi (flat_map text p) (els ++ pend_el pend) [c])
+          rewrite (tok_inert pe body Hi (flat_map text p) (els ++ map res (pend_el pend)) [c])
             by (cbn [app]; rewrite Hl; exact Hfit).
           cbn [app]. rewrite <- Hw.
-          apply (IH (els ++ pend_el pend) (Some e)); [exact Hp' | | exact Hlen' |].
+          apply (IH (els ++ map res (pend_el pend)) (Some e)); [exact Hp' | | exact Hlen' |].
           -- split; [|exact Hfit]. split; [exists c, body; repeat split; assumption | exact Hpe].
           -- destruct Hover as [Hover|Hover].
-             ++ left. rewrite app_length. cbn [pend_el length] in *. lia.
+             ++ left. rewrite app_length, map_length. cbn [pend_el length] in *. lia.
              ++ inversion Hover as [? ? Hb|? ? Hb]; subst; [lia | right; exact Hb].
         * (* e is too long *)
           apply tok_inert_overflow; [exact Hi | cbn [ulen fold_right]; pose proof (utf8_len_pos c); unfold MAX_TOKEN_LEN; lia |].
@@ -802,21 +917,29 @@ Qed.
 
 (* a well-formed path outside the known classes that exceeds a limit of the parser (more than 32
    elements, or an element of more than 256 bytes of text) is printed, and its text is rejected *)
-Theorem over_limit_rejected : forall p, valid (CPath p) -> known (CPath p) = 0 -> over_limit p = true ->
+Theorem over_limit_rejected_printable : forall p,
+  valid (CPath p) -> existsb unprintable p = false -> over_limit p = true ->
   exists s, print_path p = Ok s /\ parse s = Err.
 Proof.
-  intros p Hv Hk Hlim. pose proof (valid_good p Hv Hk) as Hg.
+  intros p Hv Hu Hlim. pose proof (valid_printable p Hv Hu) as Hg.
   exists (flat_map text p). split; [apply print_path_text; exact Hg|].
   unfold parse.
-  assert (H := tok_over parse_elem text elem_size p [] None).
+  assert (H := tok_over parse_elem text canon elem_size p [] None).
   cbn [pend_tok pend_el app length] in H. apply H; [|reflexivity|lia|].
   - rewrite Forall_forall in *. intros e He.
     destruct (print_elem_shape e (Hg e He)) as [c [body [Hpr Hrest]]].
     unfold shaped, text. rewrite Hpr. split; [exists c, body; split; [reflexivity | exact Hrest]|].
-    intros _. apply parse_elem_print; [apply Hg; exact He | exact Hpr].
+    intros _. apply parse_elem_canon; [apply Hg; exact He | exact Hpr].
   - unfold over_limit in Hlim. apply orb_true_iff in Hlim as [Hl|Hl].
     + left. unfold MAX_ELEMENTS in Hl. lia.
     + right. apply existsb_Exists in Hl. eapply Exists_impl; [|exact Hl]. cbv beta. intros e He. lia.
+Qed.
+
+Theorem over_limit_rejected : forall p, valid (CPath p) -> known (CPath p) = 0 -> over_limit p = true ->
+  exists s, print_path p = Ok s /\ parse s = Err.
+Proof.
+  intros p Hv Hk Hlim. destruct (known_0 p Hk) as [Hu _].
+  apply over_limit_rejected_printable; assumption.
 Qed.
 
 (* ---- the oracle holds on the model's output ------------------------------------------------------ *)
